@@ -115,7 +115,7 @@ def _weights(mat):
     return A
 
 
-def build(case):
+def build(case, hold_back=0):
     import astropy.units as u
     from ndcube import NDCube
     shape = tuple(case["shape"])
@@ -125,9 +125,17 @@ def build(case):
         A = _weights(case["mat"])
         wcs = make_probe_rect(A, [100 * (k + 1) for k in range(len(A))], case["types"], case["groups"])
     cube = NDCube(np.zeros(shape), wcs=wcs)
-    for k, (ax, slope, icpt) in enumerate(case["tabs"]):
+    tabs = list(enumerate(case["tabs"]))
+    for k, (ax, slope, icpt) in tabs[:len(tabs) - hold_back]:
         cube.extra_coords.add(f"e{k}", ax, (np.arange(shape[ax]) * slope + icpt) * u.m, physical_types=f"custom:e{k}")
     return cube
+
+
+def _add_held_back(cube, case, hold_back):
+    import astropy.units as u
+    tabs = list(enumerate(case["tabs"]))
+    for k, (ax, slope, icpt) in tabs[len(tabs) - hold_back:]:
+        cube.extra_coords.add(f"e{k}", ax, (np.arange(cube.data.shape[ax]) * slope + icpt) * u.m, physical_types=f"custom:e{k}")
 
 
 def _target(cube, desc):
@@ -167,7 +175,22 @@ def _expected_selection(ll, pm, n, reqs):
 
 def run(case):
     import astropy.units as u
-    cube = build(case)
+    # the answers must reflect the cube as it is NOW: ask once, scribble on what was returned, add the last extra
+    # coordinate only afterwards, then ask again (the second answers are the ones checked)
+    hold = 1 if len(case["tabs"]) >= 2 else 0
+    cube = build(case, hold_back=hold)
+    try:
+        for kw0 in ({}, {"wcs": cube.extra_coords}, {"wcs": cube.combined_wcs}):
+            for pc in (False, True):
+                pre = cube.axis_world_coords_values(pixel_corners=pc, **kw0)
+                for a in pre:
+                    try:
+                        np.asarray(a.value)[...] = -12345.0
+                    except Exception:  # noqa
+                        pass
+    except Exception:  # noqa
+        pass
+    _add_held_back(cube, case, hold)
     n, desc, corners = cube.data.ndim, case["desc"], case["corners"]
     ll, pm = _target(cube, desc)
     wkw = {} if desc == "wcs" else {"wcs": getattr(cube, desc)}
